@@ -252,7 +252,7 @@ func (svg *SVGImage) drawMarkers(dst backend.Canvas, vertices []vertex, node *sv
 		}
 
 		marker := markers[position]
-		if marker == nil {
+		if marker == nil || marker.drawing {
 			continue
 		}
 
@@ -308,6 +308,7 @@ func (svg *SVGImage) drawMarkers(dst backend.Canvas, vertices []vertex, node *sv
 		}
 
 		// draw marker path
+		marker.drawing = true
 		for _, child := range marker.children {
 			dst.OnNewStack(func() {
 				dst.State().Transform(matrix.Transform{A: scaleX, D: scaleY, E: vertex.x, F: vertex.y})
@@ -322,7 +323,7 @@ func (svg *SVGImage) drawMarkers(dst backend.Canvas, vertices []vertex, node *sv
 				svg.drawNode(dst, child, dims, paint)
 			})
 		}
-
+		marker.drawing = false
 	}
 }
 
